@@ -57,6 +57,12 @@ package lua
 //@ lemma[C09 C18] f2i_range smt: (set-logic QF_FPBV) (define-sort F () (_ FloatingPoint 11 53)) (declare-const v F) (declare-const m (_ BitVec 64)) (define-fun f2i ((x F)) (_ BitVec 64) ((_ fp.to_sbv 64) RTZ x)) (define-fun i2f ((n (_ BitVec 64))) F ((_ to_fp 11 53) RNE n)) (assert (fp.eq v (i2f (f2i v)))) (assert (fp.gt v (_ +zero 11 53))) (assert (fp.lt v (i2f m))) (assert (bvsle m #x4000000000000000)) (assert (not (and (bvsge (f2i v) #x0000000000000001) (bvslt (f2i v) m))))
 //@ axiom i2f_nonpos : forall n int :: n <= 0 ==> !(i2f(n) > 0)
 //@ lemma[C09 C18] i2f_nonpos smt: (set-logic QF_FPBV) (define-sort F () (_ FloatingPoint 11 53)) (declare-const n (_ BitVec 64)) (define-fun i2f ((n (_ BitVec 64))) F ((_ to_fp 11 53) RNE n)) (assert (bvsle n #x0000000000000000)) (assert (fp.gt (i2f n) (_ +zero 11 53)))
+//@ axiom f2i_lt : forall v float64, m int :: v == i2f(f2i(v)) && f2i(v) < m && 0 <= m && m <= 9007199254740992 ==> v < i2f(m)
+//@ lemma[C09] f2i_lt smt: (set-logic QF_FPBV) (define-sort F () (_ FloatingPoint 11 53)) (declare-const v F) (declare-const m (_ BitVec 64)) (define-fun f2i ((x F)) (_ BitVec 64) ((_ fp.to_sbv 64) RTZ x)) (define-fun i2f ((n (_ BitVec 64))) F ((_ to_fp 11 53) RNE n)) (assert (fp.eq v (i2f (f2i v)))) (assert (bvslt (f2i v) m)) (assert (bvsle #x0000000000000000 m)) (assert (bvsle m #x0020000000000000)) (assert (not (fp.lt v (i2f m))))
+//@ axiom f2i_pos_nonzero : forall v float64 :: v == i2f(f2i(v)) && f2i(v) >= 1 ==> !(v == 0)
+//@ lemma[C09] f2i_pos_nonzero smt: (set-logic QF_FPBV) (define-sort F () (_ FloatingPoint 11 53)) (declare-const v F) (define-fun f2i ((x F)) (_ BitVec 64) ((_ fp.to_sbv 64) RTZ x)) (define-fun i2f ((n (_ BitVec 64))) F ((_ to_fp 11 53) RNE n)) (assert (fp.eq v (i2f (f2i v)))) (assert (bvsge (f2i v) #x0000000000000001)) (assert (fp.eq v (_ +zero 11 53)))
+//@ axiom i2f_zero : same(mkNum(i2f(0)), mkNum(0))
+//@ lemma[C09] i2f_zero smt: (set-logic QF_FPBV) (assert (not (= ((_ to_fp 11 53) RNE #x0000000000000000) (_ +zero 11 53))))
 //@ axiom i2f_f2i : forall n int :: 0 - 9007199254740992 <= n && n <= 9007199254740992 ==> f2i(i2f(n)) == n && i2f(n) == i2f(f2i(i2f(n)))
 //@ lemma[C09 C18] i2f_f2i smt: (set-logic QF_FPBV) (define-sort F () (_ FloatingPoint 11 53)) (declare-const n (_ BitVec 64)) (define-fun f2i ((x F)) (_ BitVec 64) ((_ fp.to_sbv 64) RTZ x)) (define-fun i2f ((n (_ BitVec 64))) F ((_ to_fp 11 53) RNE n)) (assert (bvsle #xffe0000000000000 n)) (assert (bvsle n #x0020000000000000)) (assert (not (and (= (f2i (i2f n)) n) (fp.eq (i2f n) (i2f (f2i (i2f n)))))))
 
@@ -85,3 +91,67 @@ package lua
 //@ loop 1 invariant 0 <= i && i <= index - alen && Inv_arr(tb) && Inv_hash(tb) && len(tb.array) == alen + i && alen == old(len(tb.array)) && index == f2i(num(key)) - 1 && index > alen && arrid(tb.array) != 0 && (arrid(tb.array) == old(arrid(tb.array)) || fresh(tb.array)) && tb.keys == old(tb.keys) && tb.dict == old(tb.dict) && tb.strdict == old(tb.strdict) && tb.k2i == old(tb.k2i)
 //@ loop 1 invariant forall k int :: 0 <= k && k < alen ==> tb.array[k] == old(tb.array[k])
 //@ loop 1 invariant forall k int :: alen <= k && k < alen + i ==> tb.array[k] == LNil
+
+// ---------------------------------------------------------------------------
+// key validation of raw stores (manual §2.2: nil and NaN are not valid keys): LState.RawSet is the one place that
+// rejects them, and rawset() goes through it
+// ---------------------------------------------------------------------------
+//@ extern math.IsNaN
+//@ noraise
+//@ ensures  result <==> !(f == f)
+//@ modifies nothing
+
+//@ func (*LState).RawSet [C09]
+//@ logged
+//@ requires ls != nil && Inv_gfn(ls) && Inv_arr(tb) && Inv_hash(tb) && value != nil && key != nil && MaxArrayIndex <= 4611686018427387904
+//@ raises when key == LNil || (isNum(key) && !(num(key) == num(key)))
+//@ ensures  Inv_arr(tb) && Inv_hash(tb) && view(tb, key) == value
+//@ modifies tb.array, tb.array[*], tb.dict, tb.strdict, tb.keys, tb.k2i, tb.keys[*], tb.dict{*}, tb.strdict{*}, tb.k2i{*}
+
+// rawset(t, k, v): exactly one store, through the validating LState.RawSet, of (t, k, v) as given
+//@ func baseRawSet [C09]
+//@ requires Inv_gfn(L) && MaxArrayIndex <= 4611686018427387904 && (isTab(arg(L, 1)) ==> tab(arg(L, 1)) != nil && Inv_arr(tab(arg(L, 1))) && Inv_hash(tab(arg(L, 1)))) && (forall k int :: base(L) <= k && k < top(L) ==> L.reg.array[k] != nil)
+//@ raises when !isTab(arg(L, 1)) || nargs(L) < 3 || arg(L, 2) == LNil || (isNum(arg(L, 2)) && !(num(arg(L, 2)) == num(arg(L, 2))))
+//@ ensures  "one-validated-store": result == 0 && ncalls() == old(ncalls()) + 1 && callfn(old(ncalls())) == fnid("(*LState).RawSet") && callargInt(old(ncalls()), 1) == old(tab(arg(L, 1))) && callargLV(old(ncalls()), 2) == old(arg(L, 2)) && callargLV(old(ncalls()), 3) == old(arg(L, 3))
+//@ modifies type LTable.array, type LTable.dict, type LTable.strdict, type LTable.keys, type LTable.k2i, elems(LValue), type LTable.dict{*}, type LTable.strdict{*}, type LTable.k2i{*}
+
+// ---------------------------------------------------------------------------
+// Traversal: Next(key) is the successor function of pairs()/next(). Positions: the array part 1..len(array) in index
+// order, then the hash keys in the order of tb.keys (insertion order; a deleted key keeps its position, which is what
+// lets a traversal continue after the entry just visited was cleared). Next returns the first LATER position whose value
+// is not nil, or (nil, nil) when there is none - whether or not the key passed in still has a value.
+// ---------------------------------------------------------------------------
+//@ define hv(tb *LTable, k LValue) LValue = ite(isStr(k), sget(tb, str(k)), hget(tb, k))
+//@ define arrIdx(tb *LTable, k LValue) bool = isNum(k) && num(k) == i2f(f2i(num(k))) && 1 <= f2i(num(k)) && f2i(num(k)) <= len(tb.array)
+//@ define startA(tb *LTable, k LValue) int = ite(k == LNil, 0, ite(arrIdx(tb, k), f2i(num(k)), len(tb.array)))
+//@ define startH(tb *LTable, k LValue) int = ite(k == LNil || arrIdx(tb, k), 0, tb.k2i[k] + 1)
+
+//@ define idx0(k LValue) int = ite(k == LNil, 0, f2i(num(k)))
+//@ define cur0(k LValue) LValue = ite(k == LNil, mkNum(0), k)
+
+//@ func (*LTable).Next [C09]
+//@ requires Inv_arr(tb) && Inv_hash(tb) && key != nil && MaxArrayIndex <= 9007199254740992 && len(tb.array) < MaxArrayIndex && (key == LNil || arrIdx(tb, key) || (has(tb.k2i, key) && !isNum(key)))
+// (number keys that live in the hash part - fractions, 0, negatives, integers beyond the array part - are NOT covered by
+//  this contract: their routing needs float/integer order facts that are not axiomatised)
+// (finite-map fact the map model does not derive: a non-empty dict/strdict has a key, which the invariant lists in keys)
+//@ requires (tb.dict != nil && len(tb.dict) > 0) || (tb.strdict != nil && len(tb.strdict) > 0) ==> len(tb.keys) > 0
+// nil is never a key of the hash part (LState.RawSet rejects it)
+//@ requires forall j int :: 0 <= j && j < len(tb.keys) ==> tb.keys[j] != LNil
+//@ noraise
+//@ ensures  "end": result0 == LNil ==> result1 == LNil && (forall i int :: startA(tb, key) <= i && i < len(tb.array) ==> tb.array[i] == LNil) && (forall j int :: startH(tb, key) <= j && j < len(tb.keys) ==> hv(tb, tb.keys[j]) == LNil)
+//@ ensures  "array-first": (exists i int :: startA(tb, key) <= i && i < len(tb.array) && tb.array[i] != LNil) ==> isNum(result0) && arrIdx(tb, result0) && startA(tb, key) <= f2i(num(result0)) - 1 && result1 == tb.array[f2i(num(result0)) - 1] && result1 != LNil && (forall i int :: startA(tb, key) <= i && i < f2i(num(result0)) - 1 ==> tb.array[i] == LNil)
+//@ ensures  "hash-successor": result0 != LNil && (forall i int :: startA(tb, key) <= i && i < len(tb.array) ==> tb.array[i] == LNil) ==> has(tb.k2i, result0) && startH(tb, key) <= tb.k2i[result0] && result1 == hv(tb, result0) && result1 != LNil && (forall j int :: startH(tb, key) <= j && j < tb.k2i[result0] ==> hv(tb, tb.keys[j]) == LNil)
+// (proof hints) the start key 0 is an integer below MaxArrayIndex; an array index is one too
+//@ assert@"if init || key != LNumber(0) {" old(key) == LNil ==> key == mkNum(0)
+//@ assert@"if init || key != LNumber(0) {" old(key) == LNil ==> f2i(num(key)) == 0
+//@ assert@"if init || key != LNumber(0) {" old(key) == LNil ==> num(key) == i2f(f2i(num(key)))
+//@ assert@"if init || key != LNumber(0) {" old(key) == LNil ==> num(key) < i2f(MaxArrayIndex)
+//@ assert@"if init || key != LNumber(0) {" old(key) != LNil ==> key == old(key)
+//@ assert@"if init || key != LNumber(0) {" arrIdx(tb, old(key)) ==> num(key) < i2f(MaxArrayIndex)
+//@ assert@"if init || key != LNumber(0) {" arrIdx(tb, old(key)) ==> !(num(key) == 0)
+// (proof hint) when the array part is exhausted the scan restarts at the first hash key
+//@ assert@"if v := tb.RawGetH(key); v != LNil {" key == tb.keys[0] && has(tb.k2i, key) && tb.k2i[key] == 0 && (old(key) == LNil || arrIdx(tb, old(key))) && (forall q int :: startA(tb, old(key)) <= q && q < len(tb.array) ==> tb.array[q] == LNil)
+//@ modifies nothing
+//@ loop 1 invariant key == cur0(old(key)) && idx0(old(key)) <= index && arrid(tb.array) != 0 && (idx0(old(key)) <= len(tb.array) ==> index <= len(tb.array)) && (idx0(old(key)) > len(tb.array) ==> index == idx0(old(key))) && (forall i int :: idx0(old(key)) <= i && i < index && i < len(tb.array) ==> tb.array[i] == LNil)
+//@ loop 2 invariant 0 <= i && has(tb.k2i, key) && tb.k2i[key] + 1 <= i && (forall j int :: tb.k2i[key] < j && j < i && j < len(tb.keys) ==> hv(tb, tb.keys[j]) == LNil)
+//@ loop 2 invariant (key == old(key) && !isNum(key) && key != LNil) || (key == tb.keys[0] && tb.k2i[key] == 0 && hv(tb, key) == LNil && (old(key) == LNil || arrIdx(tb, old(key))) && (forall q int :: startA(tb, old(key)) <= q && q < len(tb.array) ==> tb.array[q] == LNil))
